@@ -117,7 +117,13 @@ func (e *Explorer) Explore(body func()) {
 func (e *Explorer) runBound(bound int, body func()) bool {
 	execs := 0
 	stack := [][]int{nil}
+	pending := 0 // choices held in the stack of unexplored prefixes
 	for len(stack) > 0 {
+		if pending > 60_000_000 {
+			// executions with thousands of choice points: the prefixes waiting to be explored would take
+			// gigabytes. Give up on this bound (reported as not completed), never on the machine.
+			return false
+		}
 		var prefix []int
 		if e.Stateful && !e.DepthFirst && os.Getenv("VERIF_STATEFUL_DFS") == "" {
 			// breadth first: a state is first reached by a shortest choice sequence, which keeps the
@@ -127,6 +133,7 @@ func (e *Explorer) runBound(bound int, body func()) bool {
 			prefix = stack[len(stack)-1]
 			stack = stack[:len(stack)-1]
 		}
+		pending -= len(prefix)
 		if e.Budget > 0 && execs >= e.Budget {
 			return false
 		}
@@ -189,6 +196,7 @@ func (e *Explorer) runBound(bound int, body func()) bool {
 				copy(np2, choices[:i])
 				np2[i] = alt
 				stack = append(stack, np2)
+				pending += len(np2)
 			}
 		}
 	}
